@@ -121,27 +121,133 @@ def build_set(folders, files, cuts, names, **kw):
     return out
 
 
-def compress_folder(data, comp, rng, level=None, **o):
-    """data -> (comp_type word, [(payload, usize)], meta) with random coding choices"""
-    meta = {}
+def make_folder(rng, n, comp, level=None, data=None, odd_blocks=False):
+    """folder of n bytes (or of `data`) -> (comp_type word, blocks, plaintext, meta).
+    Content is either random data run through a matcher or a random token plan
+    (repeated offsets, maximal matches, window-limit offsets) expanded."""
+    plan = data is None and comp != NONE and rng.random() < 0.5      # token-driven?
+    if data is None and not plan: data = lz.random_data(rng, n)
+    meta = {'method': ['none', 'mszip', 'quantum', 'lzx'][comp], 'source': 'tokens' if plan else 'data'}
+
+    def sizes():
+        out = []; left = n if data is None else len(data)
+        while left: s = min(left, rng.choice([32768, 32768, rng.randint(1, 32768)]) if odd_blocks else 32768); out.append(s); left -= s
+        return out
     if comp == NONE:
-        sizes = []; n = len(data)
-        while n: s = rng.choice([32768, 32768, rng.randint(1, 32768)]) if o.get('odd_blocks') else 32768; s = min(s, n); sizes.append(s); n -= s
         pos = 0; blocks = []
-        for s in sizes: blocks.append((data[pos:pos + s], s)); pos += s
-        return NONE, blocks, {'blocks': len(blocks)}
-    if comp == MSZIP:
-        mode = o.get('mode') or rng.choice(['zlib', 'mixed', 'mixed', 'stored', 'fixed', 'dynamic'])
-        sizes = None
-        if o.get('odd_blocks') and len(data) > 1:
-            sizes = []; n = len(data)
-            while n: s = min(n, rng.choice([32768, 32768, rng.randint(1, 32768)])); sizes.append(s); n -= s
-        blocks = deflate.mszip_blocks(data, mode, rng, sizes, trailing=rng.choice([0, 0, 3]))
-        return MSZIP, blocks, {'mszip_mode': mode, 'blocks': len(blocks), 'odd_blocks': bool(sizes)}
-    if comp == QUANTUM:
+        for s in sizes(): blocks.append((data[pos:pos + s], s)); pos += s
+        meta['odd_blocks'] = odd_blocks; word = NONE
+    elif comp == MSZIP:
+        if plan:
+            src = lz.random_tokens(rng, n, 32768, 3, 258, lit=bytes(range(97, 123))); data = lz.expand(src)
+            mode = rng.choice(['mixed', 'mixed', 'fixed', 'dynamic']); sz = None
+        else:
+            src = data; mode = rng.choice(['zlib', 'mixed', 'mixed', 'stored', 'fixed', 'dynamic'])
+            sz = sizes() if odd_blocks else None
+        blocks = deflate.mszip_blocks(src, mode, rng, sz, trailing=rng.choice([0, 0, 3]))
+        meta.update(mszip_mode=mode, odd_blocks=bool(sz)); word = MSZIP
+    elif comp == QUANTUM:
         wb = level or rng.randint(10, 21)
-        blocks, meta = qtm.compress(data, wb, rng, **o)
-        return QUANTUM | rng.randint(1, 7) << 4 | wb << 8, blocks, meta
-    wb = level or rng.randint(15, 21)
-    frames, total, meta = lzx.compress(data, wb, rng, **o)
-    return LZX | wb << 8, [(f, min(32768, total - 32768 * i)) for i, f in enumerate(frames)], meta
+        toks = lz.random_tokens(rng, n, qtm.max_offset(wb), 3, 259, window=1 << wb) if plan else None
+        blocks, m = qtm.compress(data, wb, rng, tokens=toks); meta.update(m)
+        if plan: data = lz.expand(toks)
+        word = QUANTUM | rng.randint(1, 7) << 4 | wb << 8
+    else:
+        wb = level or rng.randint(15, 21)
+        toks = lz.random_tokens(rng, n, lzx.max_offset(wb), 2, 257, window=1 << wb) if plan else None
+        frames, total, m = lzx.compress(data, wb, rng, tokens=toks, max_frame=32768 + 6144)
+        data = m.pop('plain'); meta.update(m); word = LZX | wb << 8
+        blocks = [(f, min(32768, total - 32768 * i)) for i, f in enumerate(frames)]
+    meta['nblocks'] = len(blocks)
+    return word, blocks, data, meta
+
+
+def _name(rng, used):
+    while True:
+        k = rng.random()
+        if k < 0.6: nm = ''.join(rng.choice('abcXYZ019_-. ') for _ in range(rng.randint(1, 12))).encode(); utf = False
+        elif k < 0.75: nm = b'\\'.join(_name(rng, set())[0] for _ in range(rng.randint(2, 4)))[:255]; utf = False
+        elif k < 0.9: nm = ''.join(rng.choice('a\u00e9\u00df\u4e2d\U0001f600/\\.') for _ in range(rng.randint(1, 20))).encode(); utf = True
+        elif k < 0.95: nm = bytes(rng.randint(1, 255) for _ in range(rng.randint(1, 30))); utf = False
+        else: nm = bytes(rng.choice(b'abcdefgh') for _ in range(rng.choice([254, 255]))); utf = False
+        if nm and nm not in used: used.add(nm); return nm, utf
+
+
+def _cut_points(rng, n):
+    """member boundaries: block/frame multiples, their neighbours, anything"""
+    c = rng.random()
+    if c < 0.3 and n >= 32768: return rng.randrange(32768, n + 1, 32768)
+    if c < 0.45 and n >= 32768: return min(n, max(0, rng.randrange(32768, n + 1, 32768) + rng.choice([-1, 1])))
+    return rng.randint(0, n)
+
+
+def random_case(rng, size='small', folders=None, comp=None, parts=None, embed=None, **_):
+    """random cabinet, split set or (embed) blob with cabinets for search()"""
+    if embed is None: embed = rng.random() < 0.08
+    if embed:
+        blob = b''; members = []; sub = []; hidden = []
+        for k in range(rng.randint(1, 3)):
+            c = random_case(rng, 'small', parts=1, embed=False)
+            junk = rng.randbytes(rng.choice([0, 1, 5, 300])) + rng.choice([b'', b'', b'', b'M', b'MS', b'MSC'])
+            if junk.endswith((b'M', b'MS', b'MSC')): hidden.append(k)
+            else: members += c['members']
+            blob += junk + c['files'][c['meta']['order'][0]]; sub.append(c['meta'])
+        blob += rng.randbytes(rng.choice([0, 0, 7, 40]))
+        return {'kind': 'cab', 'files': {'blob.bin': blob}, 'members': members,
+                'meta': {'open': 'search', 'order': ['blob.bin'], 'embedded': len(sub), 'hidden_by_find_defect': hidden, 'sub': sub}}
+    nf = folders or rng.choice([1, 1, 2, 3]); total = pick_size(rng, size)
+    bounds = sorted(rng.randint(0, total) for _ in range(nf - 1)); sizes = [b - a for a, b in zip([0] + bounds, bounds + [total])]
+    lf = []; files = []; members = []; used = set(); fmeta = []; quirks = []
+    for j, n in enumerate(sizes):
+        c = comp if comp is not None else rng.choice([NONE, MSZIP, MSZIP, QUANTUM, LZX, LZX])
+        word, blocks, plain, m = make_folder(rng, n, c, odd_blocks=rng.random() < 0.2)
+        cuts = sorted(_cut_points(rng, n) for _ in range(rng.choice([0, 0, 1, 2, 4])))
+        for k in range(rng.choice([0, 0, 0, 1, 2])): cuts.insert(rng.randint(0, len(cuts)), None)   # zero-length files
+        pos = 0; spans = []
+        for cpt in cuts + [n]:
+            if cpt is None: spans.append((pos, 0))
+            else: spans.append((pos, cpt - pos)); pos = cpt
+        for off, ln in spans:
+            nm, utf = _name(rng, used)
+            f = {'name': nm, 'length': ln, 'offset': off, 'folder': j, 'attribs': rng.choice([0x20, 0, rng.getrandbits(6) & 0x67]) | (0x80 if utf else 0),
+                 'date': (1980 + rng.getrandbits(7), rng.choice([1, 12, rng.getrandbits(4)]), rng.getrandbits(5)),
+                 'time': (rng.getrandbits(5), rng.getrandbits(6), 2 * rng.getrandbits(5))}
+            files.append(f); members.append(dict(f, data=plain[off:off + ln]))
+        m['members'] = len(spans)
+        if c == QUANTUM and m.get('wraps'):
+            ends = [o + l for o, l in spans[:-1]]
+            if any(p < e < w for p, w in m['wraps'] for e in ends): quirks.append('qtm-wrap-request:folder%d' % j)
+        m.pop('wraps', None)
+        if c == LZX and len(blocks) > 1 and blocks[-1][1] < 32768 and sum(len(p) for p, _ in blocks[:-1]) % 4096 == 0:
+            quirks.append('lzx-last-frame-buffer:folder%d' % j)
+        lf.append({'comp': word, 'blocks': blocks}); fmeta.append(m)
+    resv = None
+    if rng.random() < 0.4: resv = (rng.randbytes(rng.choice([0, 4, 20, 300])), rng.choice([0, 1, 8, 50]), rng.choice([0, 2, 10]))
+    nock = set((j, b) for j, fo in enumerate(lf) for b in range(len(fo['blocks'])) if rng.random() < rng.choice([0, 0, 0.3, 1]))
+    kw = dict(set_id=rng.getrandbits(16), reserve=resv, cksum=lambda fi, bi: True, resv_fill=rng.randbytes if rng.random() < 0.5 else (lambda k: bytes(k)))
+    k = parts or rng.choice([1, 1, 1, 2, 3, 4, 5])
+    cand = [('folder', j) for j in range(1, nf)]
+    for j, fo in enumerate(lf):
+        for b, (p, u) in enumerate(fo['blocks']):
+            cand += [('block', j, b, rng.choice([0, len(p), rng.randint(0, len(p))])) for _ in range(2)]
+    cuts = sorted(set(rng.sample(cand, min(k - 1, len(cand)))), key=lambda c: (c[1], -1, -1) if c[0] == 'folder' else c[1:])
+    names = [(('part%d.cab' % (i + 1)).encode(), rng.choice([b'', b'Disk %d' % (i + 1)])) for i in range(len(cuts) + 1)]
+    if cuts:
+        kw['cksum'] = lambda fi, bi: True       # folder/block indices differ per part: keep all checksums
+        cabs = build_set(lf, files, cuts, names, **kw)
+    else:
+        kw['cksum'] = lambda fi, bi: (fi, bi) not in nock
+        first_index = rng.getrandbits(16)
+        cabs = [build_cab(lf, files, set_index=first_index, **kw)]
+    order = [n.decode() for n, _ in names[:len(cabs)]]; np = len(cabs)
+    expect = {'folders': [(fo['comp'], len(fo['blocks'])) for fo in lf], 'cabs': [
+        {'set': kw['set_id'], 'idx': i if np > 1 else first_index, 'hres': len(resv[0]) if resv else 0,
+         'flags': (1 if i else 0) | (2 if i + 1 < np else 0) | (4 if resv else 0),
+         'prev': names[i - 1][0] if i else None, 'previnfo': names[i - 1][1] if i else None,
+         'next': names[i + 1][0] if i + 1 < np else None, 'nextinfo': names[i + 1][1] if i + 1 < np else None} for i in range(np)]}
+    meta = {'open': 'open', 'order': order, 'parts': len(cabs), 'cuts': [c[0] + (':interior' if c[0] == 'block' and 0 < c[3] < len(lf[c[1]]['blocks'][c[2]][0]) else ':edge' if c[0] == 'block' else '') for c in cuts],
+            'nfolders': nf, 'nfiles': len(files), 'zero_len_files': sum(1 for f in files if not f['length']),
+            'reserve': 'none' if resv is None else 'h%d/f%d/d%d' % (len(resv[0]), resv[1], resv[2]),
+            'unchecksummed_blocks': 0 if cuts else len(nock), 'folders': fmeta, 'quirks': quirks,
+            'total_bytes': total, 'exact_32k_multiple': total > 0 and total % 32768 == 0, 'expect': expect}
+    return {'kind': 'cab', 'files': dict(zip(order, cabs)), 'members': members, 'meta': meta}
